@@ -28,6 +28,11 @@ func (m *Limit) Run(ctx ExecutionContext, produce ProduceFn, metaSend MetaSendFn
 		return fmt.Errorf("couldn't evaluate limit expression: %w", err)
 	}
 
+	if limit.Int == 0 {
+		// Nothing to produce, and the counting below only stops after a record has been produced.
+		return nil
+	}
+
 	limitNodeID := ulid.MustNew(ulid.Now(), rand.Reader).String()
 
 	i := int64(0)
